@@ -737,7 +737,7 @@ def assemble(tmpl_path, out_path, mutation=None, inlines=None):
                 # verified (a failing obligation there is a sound violation); the run as a whole can no longer end OK
                 if getattr(o, 'mutation', None) or not os.environ.get('VK_SKIP_LOST', '1') == '1':
                     raise
-                unit.lost.append((o.outname, str(e)))
+                unit.lost.append((o.outname, str(e), list(getattr(o, 'tags', []) or [])))
                 continue
             for p in pieces:
                 put(p)
